@@ -301,6 +301,9 @@ def run(ck, ix, tier):
     f = ix.func(U, "pi_theorem")
     src = norm(f.node)
     ck.check("if any((el != 0 for el in rowm))" in src and "continue" in src, "G-PROV", "pi_theorem|only-null-rows", f.loc(), "only rows whose echelon part vanishes are returned", "pi_theorem no longer selects exactly the null rows")
+    from .. import memo as _memo
+    _memo.rule_quantity_dimensionality_memo(ck, ix)
+    _memo.rule_unit_dimensionality_memo(ck, ix)
     return EXPLANATION
 
 
